@@ -345,7 +345,7 @@ def run_shard(spec, acc):
         bset = set(_boundaries(packets))
         for label, cuts, idle in segmentations(kind, packets, rng, quick):
             by = label == "per_packet" or (label == "random" and rep % 2 == 0)      # some sessions next to an untouched second client
-            style = ("method", "object", "lambda", "partial")[(rep + len(cuts)) % 4]
+            style = ("method", "object", "lambda", "partial", "orphan-method")[(rep + len(cuts)) % 5]
             acc.cover("callback_styles", style)
             sim, stats = run_one(kind, stream, cuts, idle, settings, cb, bystander=by, cb_style=style)
             inside = any(c not in bset for c in cuts)
